@@ -91,6 +91,8 @@ type MsgSpec struct {
 	Attach  []FileSpec
 	// Boundary is a predefined boundary (WithBoundary); documented to work for messages with a single multipart only
 	Boundary string
+	// Middlewares are installed with WithMiddleware (they run at the start of every WriteTo)
+	Middlewares []mail.Middleware
 }
 
 const FixedDate = "Tue, 01 Jan 2030 00:00:00 +0000"
@@ -106,6 +108,9 @@ func (s *MsgSpec) Build() (*mail.Msg, error) {
 	opts = append(opts, mail.WithEncoding(enc))
 	if s.Boundary != "" {
 		opts = append(opts, mail.WithBoundary(s.Boundary))
+	}
+	for _, mw := range s.Middlewares {
+		opts = append(opts, mail.WithMiddleware(mw))
 	}
 	m := mail.NewMsg(opts...)
 	m.SetGenHeader(mail.HeaderDate, FixedDate)
@@ -308,6 +313,28 @@ func CleanTemp() {
 		tmpDir = ""
 	}
 }
+
+// FooterMiddleware appends a footer line to every text body part that does not end with it yet (idempotent, in
+// place): what a disclaimer / tracking middleware does.
+type FooterMiddleware struct{}
+
+const Footer = "-- \r\nsent through the footer middleware\r\n"
+
+func (FooterMiddleware) Handle(m *mail.Msg) *mail.Msg {
+	for _, p := range m.GetParts() {
+		if !strings.HasPrefix(string(p.GetContentType()), "text/") {
+			continue
+		}
+		c, err := p.GetContent()
+		if err != nil || bytes.HasSuffix(c, []byte(Footer)) {
+			continue
+		}
+		p.SetContent(string(c) + Footer)
+	}
+	return m
+}
+
+func (FooterMiddleware) Type() mail.MiddlewareType { return "verif-footer" }
 
 func h(s string) string { return hx.Hex([]byte(s)) }
 
